@@ -447,6 +447,18 @@ func (g *Gen) crit(depth int) []interface{} {
 				o = []interface{}{"lit", ANil()}
 			}
 			c := []interface{}{"un", op, B(f), o}
+			if g.chance(0.2) { // membership tests among the bounds, possibly negated
+				n := 1 + g.r.Intn(3)
+				list := make([]interface{}, 0)
+				for i := 0; i < n; i++ {
+					list = append(list, g.operand(f))
+				}
+				c = []interface{}{"un", "in", B(f), []interface{}{"list", list}}
+				if g.chance(0.5) {
+					return []interface{}{"not", c}
+				}
+				return c
+			}
 			if g.chance(0.15) {
 				return []interface{}{"not", c}
 			}
